@@ -20,6 +20,33 @@ CHECKS = {
         technique="translation validation: Lean 4 kernel-checked equivalence checker (check_sound) fed with the real compiler's output vs the Lean source semantics, on generated programs",
         text="Every generated program is compiled by the real compiler and each routine is validated against the Lean small-step source semantics on the Lean SSB machine by a checker whose soundness (equal operation/test traces for every outcome of every test, halting preserved) is a kernel-checked theorem over all transition systems and relations. A verdict is per program; no forall-programs theorem about the compiler is claimed.",
         note=TV_NOTE + "The ANTLR parser and the compiler are not modelled."),
+    "C04": dict(
+        level="proof", design="4/C04",
+        technique="Lean 4 theorems about a hand-written model of the literal printers and readers (ssb_data_types.py repr_string/escape_*/"
+                  "__str__ of every parameter class, compiler/utils.py singleline_/multiline_string_literal, util.exps_int, "
+                  "SsbOpParamFixedPoint.from_str, common_syntax.parse_position_marker_arg, the STRING_LITERAL / MULTILINE_STRING_LITERAL / "
+                  "INTEGER / DECIMAL token rules) + exact model-vs-implementation correspondence (functions, real ANTLR lexer's first token) + "
+                  "property oracle on real op lists printed by both real decompilers in every printing context and compiled back by both real compilers",
+        text="Kernel-checked for ALL strings, indents, quote preferences and following text: the text repr_string prints is consumed as exactly one "
+             "string token of the intended kind and reads back as the original value (read_repr_string, tok_*_exact, const_string_roundtrip, "
+             "langstring_roundtrip) under the decidable guards GuardS (single-line and both-triple-quotes fall-back form: every backslash is followed "
+             "by a character other than the delimiting quote and is not last; no raw \\r or \\f outside such a pair; no backslash directly before the "
+             "other quote or before the letter n) and GuardM (triple-quoted form: no str.splitlines boundary other than \\n; some line empty or "
+             "starting with a non-blank; at indent 0 the last line not blank-only). Outside the guards the pinned code really fails: one "
+             "_counterexample theorem per class, the same witnesses fail on the real code and are listed in known_findings.jsonl (23 narrow kinds); "
+             "on 620 000 function-level round trips of the thorough tier no value outside the guards round-trips, so the guards are exact there. "
+             "For ALL integers: str(int) is an INTEGER token and exps_int reads it back (int_roundtrip); hex/octal/binary spellings in either letter "
+             "case and all-zero spellings with or without sign give the spec value (int_bases, int_zeros). For ALL fixed-point values with a non-empty "
+             "fraction: printed text is a DECIMAL token and from_str returns the same value (fixed_roundtrip); every spelling [-]0..0digits.fraction "
+             "has the documented normal form (fixed_normal_form). Position marks: each coordinate reads back as (rel, 2 if offset > 1 else 0), exact "
+             "iff offset is 0 or 2 (posarg_roundtrip, posarg_exact_iff); guard exactness is kernel-checked on all 585 strings of length <= 3 over an 8-symbol alphabet (guard_exact_small); the name round-trips when it needs no escaping (posmark_roundtrip). "
+             "Dungeon-mode numbers 0..3 are determined by their configured constants when these are distinct (dmode_roundtrip). The spec's dedent "
+             "rules are an equation of the model (dedent_rules) and the spec's own examples are evaluated in the kernel.",
+        note=COMMON_NOTE + "ANTLR lexing/parsing outside the four literal token rules (blank skipping, argument lists, language-string braces, "
+             "identifiers) is not modelled: it is exercised differentially only, by the end-to-end channel. Python's str/int primitives (replace, "
+             "split, splitlines, strip, slicing, int(s,0), str(int)) are modelled by hand and compared with the interpreter on every run; CPython's "
+             "4300-digit limit for decimal int<->str conversion is outside the model. Position-mark names, constant names and language names are "
+             "taken to be plain names/identifiers. Exactness of the guards (outside => fails) is empirical, not a theorem."),
     "C14": dict(
         level="proof", design="4/C14",
         technique="Lean 4 theorems about a hand-written model of source_map.py (serialize/deserialize/rewrite_offsets) + exact model-vs-implementation correspondence + property oracle on real objects",
